@@ -1,5 +1,6 @@
-import Vet.Props.Search
-import Vet.Props.Build
+import Vet.Props.Resolve
+#print axioms Vet.C01_sound
+#print axioms Vet.C01_reported_path_is_chain
 #print axioms Vet.search_sound
 #print axioms Vet.search_fuel_enough
 #print axioms Vet.build_sound
